@@ -212,15 +212,19 @@ def _crash_result(prop, st, stderr_text, rc, work, pid_hint, seed):
     return out
 
 
-def run_ktmon_stage(prop, st, tier, seed, work, flavour, extra_env=None, extra_args=None, pre=None):
+def run_ktmon_stage(prop, st, tier, seed, work, flavour, extra_env=None, extra_args=None, pre=None, tag=None):
     binary = ktmon(flavour)
+    build_flavour = flavour
+    # files and scratch directory of this stage run are named after the *plan* flavour (VM and V run the R binary, and
+    # stages of one check may run concurrently)
+    flavour = tag or st.get("flavour", flavour)
     budget = st.get("budget", {}).get(tier, 600 if tier == "quick" else 3600) if isinstance(st.get("budget"), dict) else st.get("budget", 600 if tier == "quick" else 3600)
     outp = os.path.join(work, "result-%s-%s.json" % (st["stage"], flavour))
     errp = os.path.join(work, "stderr-%s-%s.txt" % (st["stage"], flavour))
     swork = os.path.join(work, "w-%s-%s" % (st["stage"], flavour))
     os.makedirs(swork, exist_ok=True)
     args = [binary, st["stage"], "--seed", str(seed), "--tier", tier, "--work", swork, "--replay-dir", REPLAY_DIR,
-            "--out", outp, "--flavour", flavour, "--budget", str(budget)]
+            "--out", outp, "--flavour", build_flavour, "--budget", str(budget)]
     if st.get("scale"):
         sc = st["scale"].get(tier, 1.0) if isinstance(st["scale"], dict) else st["scale"]
         if flavour != "R" and isinstance(st.get("scale_by_flavour"), dict):
